@@ -15,6 +15,9 @@ import Driver.SqlCmp
 import Driver.SqlAgg
 import Driver.SqlFn
 import Driver.SqlDml
+import Driver.RowSerde
+import Driver.SubSpill
+import Driver.Record
 
 def main (args : List String) : IO UInt32 := do
   let stdin ← IO.getStdin
@@ -37,4 +40,7 @@ def main (args : List String) : IO UInt32 := do
   | ["simd"] => Driver.loop stdin stdout Driver.Simd.St.init Driver.Simd.step; return 0
   | ["cal"] => Driver.loop stdin stdout () Driver.Cal.step; return 0
   | ["json"] => Driver.loop stdin stdout () Driver.Json.step; return 0
+  | ["rowserde"] => Driver.loop stdin stdout () Driver.RowSerde.step; return 0
+  | ["subspill"] => Driver.loop stdin stdout () Driver.SubSpill.step; return 0
+  | ["record"] => Driver.loop stdin stdout () Driver.Record.step; return 0
   | _ => IO.eprintln "usage: tvmodel <family>"; return 2
